@@ -235,6 +235,9 @@ type txGen struct {
 	cg        *codeGen
 	made      []*types.Transaction
 	o         *outT
+	hot       []common.Address // pre-funded addresses of future creations, and whatever the scenario adds
+	scen      bool             // scenario case: sender `creator` is reserved for the scripted transactions, no validator leaves
+	creator   int
 }
 
 func kai(n int64) *big.Int { return new(big.Int).Mul(big.NewInt(n), big.NewInt(1e18)) }
@@ -255,17 +258,31 @@ func (g *txGen) next() *types.Transaction {
 	r := g.r
 	price := new(big.Int).Mul(big.NewInt(int64(1+r.Intn(3))), big.NewInt(1e9))
 	si := r.Pick(4, 4, 4, 2, 1, 2)
+	for g.scen && si == g.creator {
+		si = r.Intn(3)
+	}
 	from, key := sndAddrs[si], sndKeys[si]
 	n := g.nonce[from]
 	var tx *types.Transaction
 	kind := ""
 	bad := false
 	badChain := false
-	switch r.Pick(6, 8, 4, 4, 2, 3, 1, 7) {
+	kindPick := r.Pick(6, 8, 4, 4, 2, 3, 1, 7)
+	if g.scen && (kindPick == 4 || kindPick == 5 || kindPick == 6) {
+		kindPick = r.Pick(3, 3, 2) // a halted chain (known finding) would cut the scenario short
+	}
+	switch kindPick {
 	case 0:
 		kind = "transfer"
 		var to common.Address
-		switch r.Intn(4) {
+		tsel := r.Intn(4)
+		if len(g.hot) > 0 && r.Chance(1, 3) {
+			tsel = 4
+		}
+		switch tsel {
+		case 4:
+			to = g.hot[r.Intn(len(g.hot))]
+			kind = "transfer-to-future-address"
 		case 0:
 			to = g.plain[r.Intn(len(g.plain))]
 		case 1:
@@ -1040,8 +1057,29 @@ func randBalance(r *rnd) *big.Int {
 	}
 }
 
-func genSpec(r *rnd, idx int, o *outT) (*caseSpec, []common.Address, []common.Address) {
+// prefund: the account a FUTURE creation will land on exists already (createObject then takes its
+// "reset" branch: the old account is marked destructed and the balance carried over): balance only,
+// balance and storage without code (the creation must wipe it), or a nonce (address collision).
+func prefund(r *rnd, o *outT, a common.Address) acctSpec {
+	as := acctSpec{Addr: a.Hex(), Balance: big.NewInt(int64(1 + r.Intn(100000))).String()}
+	switch r.Pick(5, 3, 1) {
+	case 1:
+		for j := 0; j < 1+r.Intn(3); j++ {
+			as.Storage = append(as.Storage, [2]string{common.BigToHash(big.NewInt(int64(j))).Hex(), common.BigToHash(big.NewInt(int64(1 + r.Intn(9)))).Hex()})
+		}
+		o.Count("genesis:prefunded-future-address-with-storage")
+	case 2:
+		as.Nonce = 1
+		o.Count("genesis:prefunded-future-address-with-nonce")
+	default:
+		o.Count("genesis:prefunded-future-address")
+	}
+	return as
+}
+
+func genSpec(r *rnd, idx int, o *outT) (*caseSpec, []common.Address, []common.Address, []common.Address) {
 	spec := &caseSpec{Idx: idx, Time: 1600000000 + int64(r.Intn(1000000))}
+	var hot []common.Address
 	switch r.Pick(3, 5, 2) {
 	case 0:
 		spec.Galaxias = -1
@@ -1085,6 +1123,16 @@ func genSpec(r *rnd, idx int, o *outT) (*caseSpec, []common.Address, []common.Ad
 			as.Nonce = uint64(1 + r.Intn(5))
 		}
 		spec.Accounts = append(spec.Accounts, as)
+		// addresses of this sender's next creations, funded before they exist
+		if i < 3 {
+			for j := uint64(0); j < 4; j++ {
+				if r.Chance(2, 5) {
+					f := crypto.CreateAddress(a, as.Nonce+j)
+					hot = append(hot, f)
+					spec.Accounts = append(spec.Accounts, prefund(r, o, f))
+				}
+			}
+		}
 	}
 	var plain, contracts []common.Address
 	for i := 0; i < 3; i++ {
@@ -1100,9 +1148,31 @@ func genSpec(r *rnd, idx int, o *outT) (*caseSpec, []common.Address, []common.Ad
 	}
 	targets := append(append([]common.Address{}, contracts...), plain...)
 	targets = append(targets, sndAddrs[1], common.BytesToAddress([]byte{2}), common.BytesToAddress([]byte{3}), common.BytesToAddress([]byte{4}))
-	cg := &codeGen{r: r, targets: targets}
+	// the contracts' own future creations (CREATE: address from the contract's nonce, 1 at genesis)
 	for _, a := range contracts {
+		for j := uint64(1); j < 3; j++ {
+			if r.Chance(1, 3) {
+				f := crypto.CreateAddress(a, j)
+				hot = append(hot, f)
+				spec.Accounts = append(spec.Accounts, prefund(r, o, f))
+			}
+		}
+	}
+	cg := &codeGen{r: r, targets: targets, hot: hot}
+	for _, a := range contracts {
+		cg.self, cg.futures = a, nil
 		code, clears := cg.contractCode()
+		for _, f := range cg.futures { // CREATE2 addresses of this contract
+			dup := false
+			for _, h := range hot {
+				dup = dup || h == f
+			}
+			if !dup && r.Chance(1, 2) {
+				hot = append(hot, f)
+				spec.Accounts = append(spec.Accounts, prefund(r, o, f))
+			}
+		}
+		cg.hot = hot
 		as := acctSpec{Addr: a.Hex(), Balance: randBalance(r).String(), Nonce: 1, Code: hex.EncodeToString(code)}
 		for j := 0; j < clears; j++ {
 			as.Storage = append(as.Storage, [2]string{common.BigToHash(big.NewInt(int64(j))).Hex(), common.BigToHash(big.NewInt(int64(1 + r.Intn(9)))).Hex()})
@@ -1112,7 +1182,7 @@ func genSpec(r *rnd, idx int, o *outT) (*caseSpec, []common.Address, []common.Ad
 		}
 		spec.Accounts = append(spec.Accounts, as)
 	}
-	return spec, plain, contracts
+	return spec, plain, contracts, hot
 }
 
 func beginBlockInfo(n *node, blk *types.Block) stypes.LastCommitInfo {
@@ -1121,13 +1191,25 @@ func beginBlockInfo(n *node, blk *types.Block) stypes.LastCommitInfo {
 
 func runCase(o *outT, idx int, seed uint64) (rspec *caseSpec, rwant []string) {
 	r := newRnd(seed).Fork(uint64(idx))
-	spec, plain, contracts := genSpec(r, idx, o)
+	spec, plain, contracts, hot := genSpec(r, idx, o)
 	nBlocks := 2 + r.Pick(3, 1)
 	long := false
 	if idx%97 == 13 && *c06Tier == "thorough" || (idx == 0 && *c06Tier == "thorough") {
 		nBlocks, long = 132, true // beyond TriesInMemory: trie GC (dereference, cap, timed flush) becomes active
 		o.Count("chain:long-gc")
 		o.Mark("long-gc")
+	}
+	// scenario cases (a third): block 1 funds the addresses the creator's next contract creations will
+	// get, block 2 carries those creations (mostly with constructors that fail inside the VM), blocks
+	// 3 and 4 touch the addresses again (transfers, BALANCE / EXTCODEHASH probes)
+	scen := !long && r.Chance(1, 3)
+	scCreator, scFunder := r.Intn(3), 0
+	scFunder = (scCreator + 1 + r.Intn(2)) % 3
+	var scF []common.Address
+	var scN0 uint64
+	if scen {
+		nBlocks = 4
+		o.Count("chain:scenario-prefunded-creation")
 	}
 	o.Case(idx, fmt.Sprintf("CASE %d gal=%d vals=%d blocks=%d", idx, spec.Galaxias, len(spec.Vals), nBlocks))
 
@@ -1200,7 +1282,17 @@ func runCase(o *outT, idx int, seed uint64) (rspec *caseSpec, rwant []string) {
 	}
 	targets := append(append([]common.Address{}, contracts...), plain...)
 	tg := &txGen{r: r, cfg: R.bc.chainConfig, contracts: contracts, plain: plain, valSmc: valSmc, spec: spec, o: o,
-		cg: &codeGen{r: r, targets: targets}}
+		cg: &codeGen{r: r, targets: targets, hot: hot}, hot: hot, scen: scen, creator: scCreator}
+	// everything the chain has touched so far is read back after every block (on every node, through
+	// a fresh StateDB) and compared between the snapshot layers and the tries
+	touchedAll := map[string]bool{}
+	interest := newInterest()
+	for _, a := range hot {
+		touchedAll[a.Hex()] = true
+		if d, err := dumpAcct(R.bc, R.bc.Genesis().AppHash(), a); err == nil {
+			interest.add(a, d)
+		}
+	}
 
 	childSpec := *spec
 	childSpec.Cfg = r.Intn(len(cacheConfigs) - 1)
@@ -1230,7 +1322,7 @@ func runCase(o *outT, idx int, seed uint64) (rspec *caseSpec, rwant []string) {
 		// ---- the block
 		var blk *types.Block
 		proposer := R.st.Validators.GetProposer().Address
-		viaPool := !long && r.Chance(1, 3)
+		viaPool := !long && !scen && r.Chance(1, 3)
 		ntx := r.Pick(1, 2, 3, 3, 3, 2, 2, 1, 1)
 		if long {
 			ntx = r.Pick(6, 2, 1)
@@ -1273,6 +1365,65 @@ func runCase(o *outT, idx int, seed uint64) (rspec *caseSpec, rwant []string) {
 			}
 		} else {
 			var txs []*types.Transaction
+			if scen {
+				S, T := sndAddrs[scCreator], sndAddrs[scFunder]
+				script := func(si int, tx func(nonce uint64) *types.Transaction) {
+					a := sndAddrs[si]
+					txs = append(txs, tg.sign(tx(tg.nonce[a]), sndKeys[si], false))
+					tg.nonce[a]++
+				}
+				price := big.NewInt(2e9)
+				fund := func(f common.Address) {
+					script(scFunder, func(n uint64) *types.Transaction {
+						return types.NewTransaction(n, f, big.NewInt(int64(1+r.Intn(100000))), 100000, price, nil)
+					})
+					o.Count("tx:scenario-fund-future-address")
+				}
+				_ = T
+				switch h {
+				case 1:
+					scN0 = tg.nonce[S]
+					for j := 0; j < 1+r.Intn(3); j++ {
+						scF = append(scF, crypto.CreateAddress(S, scN0+uint64(j)))
+					}
+					tg.hot = append(tg.hot, scF...)
+					tg.cg.hot = tg.hot
+					for _, f := range scF {
+						touchedAll[f.Hex()] = true
+						if r.Chance(2, 3) {
+							fund(f)
+						}
+					}
+				case 2:
+					for j, f := range scF {
+						if r.Chance(1, 4) {
+							fund(f) // funded in the very block that creates on it
+						}
+						init, kind := tg.cg.failingInit(), "failing"
+						if r.Chance(1, 3) {
+							init, kind = tg.cg.initCode(0), "random"
+						}
+						_ = j
+						script(scCreator, func(n uint64) *types.Transaction {
+							return types.NewContractCreation(n, big.NewInt(int64(r.Intn(2)*777)), uint64(100000+r.Intn(600000)), price, init)
+						})
+						o.Count("tx:scenario-create-" + kind)
+					}
+				default:
+					for _, f := range scF {
+						switch r.Pick(3, 3, 1) {
+						case 0:
+							fund(f)
+						case 1: // a creation whose constructor stores what it sees at f
+							init := (&asm{}).probe(f, 0).pushN(0).pushN(0).op(0xf3).b
+							script(scFunder, func(n uint64) *types.Transaction {
+								return types.NewContractCreation(n, new(big.Int), 300000, price, init)
+							})
+							o.Count("tx:scenario-probe-future-address")
+						}
+					}
+				}
+			}
 			for i := 0; i < ntx; i++ {
 				txs = append(txs, tg.next())
 			}
@@ -1283,7 +1434,11 @@ func runCase(o *outT, idx int, seed uint64) (rspec *caseSpec, rwant []string) {
 				ts = cstate.MedianTime(lastCommit, R.st.LastValidators)
 			}
 			hd := R.bo.newHeader(ts, h, 0, R.st.LastBlockID, proposer, R.st.Validators.Hash(), R.st.NextValidators.Hash(), R.st.AppHash)
-			switch r.Pick(6, 2, 2) {
+			glPick := r.Pick(6, 2, 2)
+			if scen {
+				glPick = 0
+			}
+			switch glPick {
 			case 0:
 				hd.GasLimit = configs.BlockGasLimit
 				if R.bc.chainConfig.IsGalaxias(&h) {
@@ -1387,9 +1542,29 @@ func runCase(o *outT, idx int, seed uint64) (rspec *caseSpec, rwant []string) {
 		}
 		// touched keys for the read-back (before emitU, which needs the post content)
 		for _, p := range pend {
-			touched = append(touched, p.Addr.Hex())
+			touchedAll[p.Addr.Hex()] = true
 			for _, s := range p.Slots {
-				touched = append(touched, p.Addr.Hex()+"/"+s.Key.Hex())
+				touchedAll[p.Addr.Hex()+"/"+s.Key.Hex()] = true
+			}
+			if d, ok := preCache[p.Addr]; ok {
+				interest.add(p.Addr, d)
+			} else {
+				interest.add(p.Addr, acctDump{})
+			}
+			for _, s := range p.Slots {
+				interest.slot(p.Addr, crypto.Keccak256Hash(s.Key[:]))
+			}
+		}
+		if !long {
+			for t := range touchedAll {
+				touched = append(touched, t)
+			}
+		} else {
+			for _, p := range pend {
+				touched = append(touched, p.Addr.Hex())
+				for _, s := range p.Slots {
+					touched = append(touched, p.Addr.Hex()+"/"+s.Key.Hex())
+				}
 			}
 		}
 		sort.Strings(touched)
@@ -1472,6 +1647,15 @@ func runCase(o *outT, idx int, seed uint64) (rspec *caseSpec, rwant []string) {
 			}
 		}
 
+		// ---- the snapshot layers of every node that keeps them say what the tries say
+		if !long || h%16 == 1 {
+			snapVsTrie(o, step, R, R.st.AppHash, interest)
+			for _, p := range peers {
+				snapVsTrie(o, step, p.n, R.st.AppHash, interest)
+			}
+			snapEnumVsTrie(o, step, R, R.st.AppHash)
+		}
+
 		// ---- replica (cold, no write) == real (warm, committed)
 		newRoot := R.st.AppHash
 		info := readInfo(R, blk)
@@ -1504,6 +1688,7 @@ func runCase(o *outT, idx int, seed uint64) (rspec *caseSpec, rwant []string) {
 					o.Fail(step, "harness", "dump: "+err.Error())
 				}
 				postCache[p.Addr] = d
+				interest.add(p.Addr, d)
 			}
 			emitU(o, r, h, func(a common.Address) acctDump { return preCache[a] }, func(a common.Address) acctDump { return postCache[a] }, pend)
 		}
@@ -1537,6 +1722,14 @@ func runCase(o *outT, idx int, seed uint64) (rspec *caseSpec, rwant []string) {
 	nV := 6
 	for k := 0; k < nV; k++ {
 		genV(o, r, 1000+k)
+	}
+
+	// ---- chains of StateDB operations over the snapshot tree in several configurations
+	for k := 0; k < 3; k++ {
+		genJ(o, r, 2000+k, false)
+	}
+	if idx%8 == 5 {
+		genJ(o, r, 2003, true)
 	}
 	return &cs, want
 }
